@@ -21,6 +21,12 @@ fn cases(ob: &str) -> Vec<String> {
         out.push(format!("bytes:{}", crate::hex(format!("{}e{}{}", m, sg, e).as_bytes())));
         out.push(format!("bytes:{}", crate::hex(format!("(1 #u8({}e{}{}) . '#d{}e{}{})", m, sg, e, m, sg, e).as_bytes())));
     } } }
+    // long and odd character names, encoded surrogates / out-of-range scalars at token starts and in character literals
+    for t in [&b"#\\backspacely"[..], b"#\\abcdefghijklmnopqrstuvwxyz", b"(#\\nullnullnull x)", b"#\\x41414141414141414141", b"?\\^abcdefghijkl", b"#\\spacespacespace #\\a",
+              b"\xed\xa0\x80", b"#\\\xed\xa0\x80", b"#\\\xf4\x90\x80\x80", b"?\xf5\x80\x80\x80", b"(\xed\xbf\xbf)", b"?\\\xf4\x90\x80\x80", b"\xf7\xbf\xbf\xbf x", b"'\xed\xa0\x80", b"\xe0\x80\x80", b"\xc0\x80", b"#\\\xc1\xbf",
+              b"abcdefghijklmnopqrstuvwxyzabcdefghijklmnopqrstuvwxyz", b"#:abcdefghijklmnopqrstuvwxyz", b"\"\\x41414141414141;\"", b"#xFFFFFFFFFFFFFFFFFFFFFFFFFFFFFFFFFFFFFFFFe", b"#b1111111111111111111111111111111111111111111111111111111111111111111111"] {
+        out.push(format!("bytes:{}", crate::hex(t)));
+    }
     // short inputs over a token alphabet, all three sources, both dialects
     let alpha: Vec<&[u8]> = vec![b"(", b")", b"[", b"]", b"#", b"\\", b"\"", b"'", b",@", b".", b"+", b"-", b"1", b"e", b"x", b":", b"?", b";", b" ", b"\n", b"\xc3", b"\xa9", b"\xf0", b"u8", b"t", b"nil", b"|", b"%"];
     for a in &alpha { for b in &alpha { for c in &alpha {
